@@ -6,8 +6,11 @@ inserts exactly the parentheses Python's grammar requires for the tree (own prec
 from __future__ import annotations
 
 import itertools
+import json
 import operator
+import os
 import random
+import re
 import sys
 from decimal import Decimal
 from fractions import Fraction
@@ -15,7 +18,7 @@ from fractions import Fraction
 from hypothesis import strategies as st
 
 from .. import env
-from ..core import Collector, Skip, Violation, attempt, exc_class, hyp_search, khash, shard
+from ..core import Collector, HarnessError, Skip, Violation, attempt, exc_class, hyp_search, khash, shard
 
 PROPERTY = "C07"
 LEVEL = "exploration"
@@ -39,6 +42,9 @@ def tasks(tier, seed):
     t = [{"sub": "small", "shard": i, "nshard": 12} for i in range(12)]
     t += [{"sub": "large", "nit": nit, "shard": i} for i, nit in enumerate(["float", "Fraction", "Decimal", "float"])]
     t += [{"sub": "malformed", "shard": 0}, {"sub": "noexec", "shard": 0}, {"sub": "words", "shard": 0}, {"sub": "uncert", "shard": 0}]
+    if tier == "thorough" or os.environ.get("VERIF_FUZZ"):
+        # coverage-guided campaigns: half of the shards start from an empty corpus, half from a few valid expressions
+        t += [{"sub": "fuzz", "shard": i, "corpus": "empty" if i % 2 else "seeded"} for i in range(8)]
     return t
 
 
@@ -636,7 +642,7 @@ def run_noexec(task, tier, seed, col):
 
 
 def run_task(task, tier, seed, col):
-    {"small": run_small, "large": run_large, "malformed": run_malformed, "noexec": run_noexec, "words": run_words, "uncert": run_uncert}[task["sub"]](task, tier, seed, col)
+    {"small": run_small, "large": run_large, "malformed": run_malformed, "noexec": run_noexec, "words": run_words, "uncert": run_uncert, "fuzz": run_fuzz}[task["sub"]](task, tier, seed, col)
 
 
 def _tup(x):
@@ -649,4 +655,158 @@ def replay(sub, case):
         case["tree"] = _tup(case["tree"])
     if sub == "small":
         return case_small(case)
-    return {"large": case_large, "malformed": case_malformed, "noexec": case_noexec, "words": case_words, "uncert": case_uncert}[sub](case)
+    return {"large": case_large, "malformed": case_malformed, "noexec": case_noexec, "words": case_words, "uncert": case_uncert, "fuzz": case_fuzz}[sub](case)
+
+
+# ------------------------------------------------------------------------------------- coverage-guided fuzzing (thorough tier)
+
+FUZZ_NAMES = {"m", "s", "kg", "meter", "second"}
+_NUM_RE = re.compile(r"^(\d+\.\d*|\.\d+|\d+)([eE][+-]?\d+)?$")
+_PLAIN_ALPHABET = set("0123456789.+-*/() \tmskgetrcond")
+_AST_OPS = None
+
+
+class _NotInDomain(Exception):
+    pass
+
+
+def _ast_to_tree(src, node):
+    import ast
+
+    global _AST_OPS
+    if _AST_OPS is None:
+        _AST_OPS = {ast.Add: "+", ast.Sub: "-", ast.Mult: "*", ast.Div: "/", ast.FloorDiv: "//", ast.Pow: "**"}
+    if isinstance(node, ast.Constant):
+        seg = ast.get_source_segment(src, node)
+        if type(node.value) not in (int, float) or seg is None or not _NUM_RE.match(seg) or len(seg) > 12:
+            raise _NotInDomain
+        if re.match(r"^\d+$", seg) and len(seg) > 1 and seg[0] == "0":
+            raise _NotInDomain
+        return N(seg)
+    if isinstance(node, ast.Name):
+        if node.id not in FUZZ_NAMES:
+            raise _NotInDomain
+        return U(node.id)
+    if isinstance(node, ast.UnaryOp):
+        if isinstance(node.op, ast.USub):
+            return NEG(_ast_to_tree(src, node.operand))
+        if isinstance(node.op, ast.UAdd):
+            return ("pos", _ast_to_tree(src, node.operand))
+        raise _NotInDomain
+    if isinstance(node, ast.BinOp) and type(node.op) in _AST_OPS:
+        return B(_AST_OPS[type(node.op)], _ast_to_tree(src, node.left), _ast_to_tree(src, node.right))
+    raise _NotInDomain
+
+
+def _strip_pos(t):
+    if t[0] == "pos":
+        return _strip_pos(t[1])
+    if t[0] == "neg":
+        return NEG(_strip_pos(t[1]))
+    if t[0] == "bin":
+        return B(t[1], _strip_pos(t[2]), _strip_pos(t[3]))
+    return t
+
+
+def case_fuzz(case, col=None):
+    """One fuzz input: no-execution oracle always; differential and structure oracles when the string lies in their domain."""
+    import ast
+
+    s = case["s"]
+    info = {}
+    npow = s.count("**") + s.count("^") + len(re.findall(r"[⁰¹²³⁴⁵⁶⁷⁸⁹]+", s)) + s.count("cubed") + s.count("squared") + s.count("cubic") + s.count("square") + s.count("sq")
+    if npow and (npow > 1 or sum(ch.isdigit() for ch in s) > 6 or "e" in s.lower().replace("meter", "").replace("second", "").replace("per", "")):
+        # keep big-integer towers out of the campaign (see magnitude_guard): at most one power operator next to a few digits
+        raise Skip("huge_power")
+    case_noexec({"s": s, "kind": "fuzz"}, None)
+    ureg = env.ureg("float")
+    t = s.strip(" \t")
+    tree = None
+    if t and not any(ch in t for ch in "\n\r\\\f\v#;") and len(t) <= 64:
+        try:
+            tree = _strip_pos(_ast_to_tree(t, ast.parse(t, mode="eval").body))
+        except (_NotInDomain, SyntaxError, ValueError, RecursionError, MemoryError):
+            tree = None
+    if tree is not None:
+        magnitude_guard(tree)
+        info["in_domain"] = True
+        want = _outcome(lambda: evaluate(ureg, tree, "float"))
+        got = _outcome(lambda: ureg.parse_expression(t))
+        info["ok"] = want[0] == "ok"
+        if col is not None:
+            col.case(("fz", t), want[0] == "ok", sample={"text": t, "expected": show_res(want)}, cls="fuzz:differential")
+        if want[0] != got[0]:
+            if got[0] == "ok":
+                raise Violation("fuzz:parsed_where_arithmetic_raises", f"{t!r} -> {show_res(got)}; Python's reading {tree} raises {want[1]}")
+            raise Violation(f"fuzz:refused_valid_expression:{got[1]}", f"{t!r} raised {got[1]}: {got[2]}; Python's reading evaluates to {show_res(want)}")
+        if want[0] == "err":
+            if want[1] != got[1]:
+                raise Violation(f"fuzz:different_error:{want[1]}->{got[1]}", f"{t!r}: parse raised {got[1]}, the tree raises {want[1]}")
+        elif not _same(got[1], want[1], "float"):
+            raise Violation("fuzz:wrong_value", f"{t!r} -> {show_res(got)}, Python's reading {tree} gives {show_res(want)}")
+    elif t and set(t) <= _PLAIN_ALPHABET:
+        unbalanced = t.count("(") != t.count(")")
+        dangling = t.rstrip(" \t")[-1] in "*/+-" or t[0] in "*/"
+        if unbalanced or dangling:
+            info["structure"] = True
+            got = _outcome(lambda: ureg.parse_expression(t))
+            if col is not None:
+                col.case(("fzs", t), True, sample={"text": t}, cls="fuzz:structure")
+            if got[0] == "ok":
+                raise Violation("fuzz:malformed_input_yields_value:" + ("unbalanced" if unbalanced else "dangling"), f"{t!r} -> {show_res(got)}")
+    return info
+
+
+FUZZ_CORPUS = ["2*m", "3 m/s", "(2+3)*kg", "-2**2", "2**-3", "m**2/s", "2 // 3 * m", "4.5e3 * meter / second", "(m + m) * 2", "1/(2*3)", "--2", "-(m)", "2*(3+4)*kg/s**2",
+               "(8.0 +/- 4.0) m", "1.25(5) s", "m²", "kg·m/s²", "3 meter per second", "5 m squared"]
+FUZZ_DICT = ["**", "//", "+/-", "±", "(", ")", "m", "s", "kg", "meter", "second", " per ", " squared", "e3", "e-3", ".", "²", "·", "^", "2", "3.5", " ", "-", "+", "*", "/"]
+
+
+def run_fuzz(task, tier, seed, col):
+    import shutil
+    import subprocess
+    import tempfile
+
+    budget = int(os.environ.get("VERIF_FUZZ_SECONDS", "20" if tier == "quick" else "240"))
+    work = tempfile.mkdtemp(prefix="vf_c07_fuzz_")
+    try:
+        corpus = os.path.join(work, "corpus")
+        os.makedirs(corpus)
+        if task.get("corpus") == "seeded":
+            for i, s in enumerate(FUZZ_CORPUS):
+                with open(os.path.join(corpus, f"seed{i}"), "wb") as fh:
+                    fh.write(s.encode("utf-8"))
+        dict_file = os.path.join(work, "dict.txt")
+        with open(dict_file, "w", encoding="utf-8") as fh:
+            for tok in FUZZ_DICT:
+                fh.write('"' + "".join(f"\\x{b:02x}" for b in tok.encode("utf-8")) + '"\n')
+        out = os.path.join(work, "findings.jsonl")
+        envv = dict(os.environ, VF_FUZZ_OUT=out)
+        cmd = [sys.executable, "-m", "vf.fuzz.c07_target", corpus, f"-seed={seed * 1000 + task['shard'] + 1}", f"-max_total_time={budget}", "-max_len=64", f"-dict={dict_file}",
+               "-timeout=60", "-rss_limit_mb=3000", f"-artifact_prefix={work}/art_", "-verbosity=0", "-print_final_stats=0"]
+        p = subprocess.run(cmd, env=envv, stdout=subprocess.PIPE, stderr=subprocess.STDOUT, text=True, timeout=budget + 300)
+        stats = {}
+        if os.path.exists(out + ".stats"):
+            stats = json.load(open(out + ".stats"))
+        if not stats.get("execs"):
+            raise HarnessError(f"fuzz target produced no statistics (exit {p.returncode}): {p.stdout[-800:]}")
+        for k in ("execs", "in_domain", "in_domain_ok", "structure_checked", "skipped"):
+            col.count("fuzz_" + k, int(stats.get(k, 0)))
+        col.notes.append(f"atheris shard {task['shard']} ({task.get('corpus')} corpus): {stats.get('execs')} execs in {budget}s, {stats.get('in_domain')} in the differential domain "
+                         f"({stats.get('distinct_in_domain')} distinct), {stats.get('structure_checked')} structure checks, exit {p.returncode}; samples {stats.get('samples', [])[:6]}")
+        if p.returncode != 0:
+            arts = [f for f in os.listdir(work) if f.startswith("art_")]
+            col.notes.append(f"libFuzzer exit {p.returncode} artefacts {arts} (timeouts / crashes of the harness are inconclusive, not violations): {p.stdout[-300:]!r}")
+            for a in arts:
+                data = open(os.path.join(work, a), "rb").read()
+                col.notes.append(f"artefact {a}: {data[:80]!r}")
+        # every finding is re-decided in this process by the plain case function (the replay path), which registers the violation
+        if os.path.exists(out):
+            for line in open(out, encoding="utf-8"):
+                f = json.loads(line)
+                col.run_case(lambda c: case_fuzz(c, col), {"s": f["s"]})
+        # a sample of the in-domain inputs is also recorded as ordinary cases so that evidence shows what the fuzzer reached
+        for s in stats.get("samples", []):
+            col.run_case(lambda c: case_fuzz(c, col), {"s": s})
+    finally:
+        shutil.rmtree(work, ignore_errors=True)
